@@ -300,7 +300,7 @@ pub fn run(ctx: &Ctx) {
         check_sqrt,
     );
     let max_len = t.pick(500usize, 2000);
-    let n = t.pick(150_000u64, 5_000_000);
+    let n = t.pick(400_000u64, 5_000_000);
     ctx.generated("random", "sqrt", n, "1..max digits, scales +-2000 (both parities), p small / 1..150 / 100 / 95..105, negatives and zeros included", move || free_strategy(max_len, 150, 8), check_sqrt);
     ctx.generated("long-inputs", "sqrt", n / 2, "40..max digits with p in 1..20: more than 2(p+5) digits", move || long_input_strategy(max_len, false), check_sqrt);
     ctx.generated("constructed-roots", "sqrt", n, "x = R^2 (+-1 in a far digit) where R = p digits ++ {nothing, 5, 50..0x, 49..9x, 0..0x, 9..9x}", || constructed_strategy(2, 150, false), check_sqrt);
